@@ -21,13 +21,14 @@
 (*   A4  array, rank 2, set dimension without labels followed by a labelled one *)
 (*   A5  array, rank 2, two range dimensions                                *)
 (*   A6  array, rank 2, two sampled dimensions; referenced by tag T2 (units for both dimensions) *)
+(*   A7  array, rank 1, numeric, with an alias range dimension D71 (its ticks are the array's data) *)
 (*   T   tag referencing A1 (units for both dimensions), feature FT        *)
 (*   M   multi-tag with positions P, referencing A2, feature FM            *)
 (*   S   section with property PR                                          *)
 (***************************************************************************)
 EXTENDS NixCommon
 
-Entities == {"A1", "A2", "A3", "A4", "A5", "A6", "T2", "D11", "D12", "D21", "D31", "T", "M", "FT", "FM", "S", "PR", "B"}
+Entities == {"A1", "A2", "A3", "A4", "A5", "A6", "A7", "D71", "T2", "D11", "D12", "D21", "D31", "T", "M", "FT", "FM", "S", "PR", "B"}
 
 \* breach -> [hard?, entity that must carry the error]
 Rules == [
@@ -56,6 +57,7 @@ Rules == [
   dimunit2      |-> [hard |-> TRUE,  at |-> "T"],
   ndims_missing |-> [hard |-> TRUE,  at |-> "A6"],   \* FEWER descriptors than data dimensions (one of two); the tag T2 still names units for both
   ndims_none    |-> [hard |-> TRUE,  at |-> "A6"],
+  alias_unsorted |-> [hard |-> TRUE, at |-> "D71"],  \* the data of A7 - the ticks of its alias range dimension - not ascending (the data API accepts any values)
   dupticks      |-> [hard |-> FALSE, at |-> "D12"] ] \* two equal neighbouring ticks: ascending (not strictly), accepted by the API, conforming  \* no descriptor at all
 Breaches == DOMAIN Rules
 
